@@ -708,7 +708,23 @@ def m_re_sub(ex, st, obj, args, kwargs, node):
     return [(st, VStr(z3.String(fresh_name("re_sub"))))]
 
 
+def m_re_sub_fn(ex, st, args, kwargs, node):
+    """re.sub(<constant pattern>, <constant replacement without group references>, text) inside `get_text`: total, a function of the
+    text (the pattern is compiled natively once: a pattern `re` rejects raises at the call).  Elsewhere: the engine's default (unknown call)."""
+    tgt = getattr(getattr(ex, "contract", None), "target", "") or ""
+    if tgt.endswith(f"{ECLS}.get_text") and len(args) == 3 and not kwargs and all(isinstance(a, VStr) for a in args) \
+            and args[0].const() is not None and args[1].const() is not None and "\\" not in args[1].const():
+        import re as _re
+        try:
+            _re.compile(args[0].const())
+            return [(st, VStr(RE_SUB(args[0].t, args[1].t, args[2].t)))]
+        except Exception:  # noqa
+            pass
+    return ex.havoc_call(st, "re.sub", args, node)
+
+
 def install(reg):
+    reg.ext_models["re.sub"] = m_re_sub_fn
     reg.ext_models["str.lower"] = m_lower
     reg.ext_models["str.split"] = m_split
     reg.ext_models["str.join"] = m_join
